@@ -309,8 +309,13 @@ pub fn run_check<E: Engine>(engine: &E, spec: &CheckSpec, tier: &str) -> i32 {
   let mut known_hits: BTreeMap<String, u64> = BTreeMap::new();
   let mut per_config = vec![];
 
+  // Development aid (never set by a registered command): restrict the search to one configuration / another budget.
+  let only_config = std::env::var("VERIF_ONLY_CONFIG").ok().filter(|s| !s.is_empty());
+  let runs_override: Option<u64> = std::env::var("VERIF_RUNS").ok().and_then(|s| s.parse().ok());
   for (ci, config) in spec.configs.iter().enumerate() {
-    let n = if tier == "thorough" { config.thorough } else { config.quick };
+    let mut n = if tier == "thorough" { config.thorough } else { config.quick };
+    if let Some(oc) = &only_config { if oc != config.name { continue; } }
+    if let (Some(_), Some(r)) = (&only_config, runs_override) { n = r; }
     if n == 0 { continue; }
     let cstream = stream ^ hash_str(config.name).rotate_left(7) ^ (ci as u64);
     let next = AtomicU64::new(0);
@@ -467,7 +472,7 @@ pub fn run_check<E: Engine>(engine: &E, spec: &CheckSpec, tier: &str) -> i32 {
   });
   let edir = format!("{}/evidence", verif_dir());
   let _ = std::fs::create_dir_all(&edir);
-  if exit != 2 {
+  if exit != 2 && only_config.is_none() {
     std::fs::write(format!("{edir}/{prop}.json"), serde_json::to_string_pretty(&evidence).unwrap()).expect("cannot write evidence");
   }
   println!("summary property={prop} tier={tier} runs={} distinct_scenarios={} distinct_nontrivial={} traces={} steps={} wall_s={:.1} exit={exit}",
